@@ -9,7 +9,7 @@ using namespace sys;
 
 struct Desc {
     u8 family;  // 0 timers, 1 audio port, 2 host events
-    u8 main;    // 0 idle self-branch, 1 busy loop, 2 nop+idle, 3 three nops+idle
+    u8 main;    // 0 idle self-branch, 1 busy loop, 2 nop+idle, 3 three nops+idle, 4 busy loop with a conditional self-branch that falls through, 5 conditional idle
     u8 hk;      // handler kind 0..5
     u8 enabled; // 0: line masked (im=0), 1: ie=1 and im=1, 2: ie=0
     u8 t0_mode, t0_start, t0_line, t0_mu, t1_on;
@@ -19,7 +19,8 @@ struct Desc {
 };
 inline std::string Show(const Desc& d) {
     static const char* fam[] = {"timer", "audio", "host-event"};
-    static const char* mn[] = {"idle(brr -1)", "busy(inc a0; brr -2)", "nop; idle", "3 nops; idle"};
+    static const char* mn[] = {"idle(brr -1)", "busy(inc a0; brr -2)", "nop; idle", "3 nops; idle", "busy(inc a0; brr -1,eq [falls through]; brr -3)",
+                               "idle(brr -1,neq [taken])"};
     static const char* hk[] = {"count;reti", "ack ICU;count;reti", "re-arm timer0;count;reti", "push audio word;count;reti",
                                "count;retic(context switch)", "write REPLY0;count;reti"};
     return Fmt("{%s main='%s' handler='%s' enabled=%u timer0(mode=%u start=%u line=%u mu=%u) timer1=%u audio(period=%u queued=%u "
@@ -78,7 +79,7 @@ struct Runner {
         for (u32 v : {0x0006u, 0x000Eu, 0x0016u, 0x0200u})
             for (size_t i = 0; i < 8; ++i)
                 m.SetProg(v + i, i < h.size() ? h[i] : 0x0000);
-        static const std::vector<u16> mains[] = {{0x57F0}, {0x67D0, 0x57E0}, {0x0000, 0x57F0}, {0x0000, 0x0000, 0x0000, 0x57F0}};
+        static const std::vector<u16> mains[] = {{0x57F0}, {0x67D0, 0x57E0}, {0x0000, 0x57F0}, {0x0000, 0x0000, 0x0000, 0x57F0}, {0x67D0, 0x57F1, 0x57D0}, {0x57F2}};
         for (size_t i = 0; i < 8; ++i)
             m.SetProg(0x0100 + i, i < mains[d.main].size() ? mains[d.main][i] : 0x0000);
         // ---- registers ----
@@ -364,6 +365,18 @@ inline std::vector<Desc> Family(bool thorough) {
                                         d.t0_line = line, d.t0_mu = mu, d.t1_on = t1, d.n = n;
                                         v.push_back(d);
                                     }
+        // family 0b: conditional self-branches (taken: an idle loop; not taken: ordinary code that must not be fast-forwarded)
+        for (u8 main = 4; main < 6; ++main)
+            for (u8 mode : {0, 1})
+                for (u8 start : {0, 1, 4, 9})
+                    for (u8 line : {0, 3, 4})
+                        for (u8 hk : {0, 2})
+                            for (u8 t1 = 0; t1 < 2; ++t1) {
+                                Desc d{};
+                                d.family = 0, d.main = main, d.hk = hk, d.enabled = 1, d.t0_mode = mode, d.t0_start = start;
+                                d.t0_line = line, d.t0_mu = 1, d.t1_on = t1, d.n = n;
+                                v.push_back(d);
+                            }
         // family 1: audio port
         for (u8 main = 0; main < 4; ++main)
             for (u8 period = 1; period <= 5; ++period)
